@@ -74,5 +74,7 @@ def split(
         iterable, ci = tee(iterable)
         condition = map(condition, ci)
     i1, i2 = tee(iterable)
-    c1, c2 = tee(condition)
+    # Decide the side of each value once: a condition object's truth value
+    # may change between the moments the two iterators look at it
+    c1, c2 = tee(map(bool, condition))
     return compress(i1, c1), compress(i2, map(op.not_, c2))
